@@ -20,6 +20,8 @@
      Dynamic._num_tags                            e_numtags
      stream.tell() of every stream                cur   (ONE cursor per stream)
      live generator objects                       frames (their local variables)
+     CFIEntry._decoded_table of the entries of    cfis
+       the list a client holds
 
    No proofs here. *)
 From PV Require Export Base.PyData.
@@ -145,32 +147,38 @@ Record state := mk_state {
   e_symmap : option (dict Z (list Z));(* SymbolTableSection._symbol_name_map *)
   e_numtags : Z;                      (* Dynamic._num_tags (-1 = not yet known) *)
   cur : list Z;
-  frames : list frame
+  frames : list frame;
+  (* the list of CFI entry objects the client got from its last CFI_entries() / EH_CFI_entries() call, one
+     CFIEntry._decoded_table memo per entry (None = the client holds no list yet): (.debug_frame, .eh_frame) *)
+  cfis : option (list (option Z)) * option (list (option Z))
 }.
 
 Definition init_state (nslots : nat) : state :=
-  mk_state [] [] [] [] [] [] None None (-1) (repeat 0 NSTREAMS) (repeat FEmpty nslots).
+  mk_state [] [] [] [] [] [] None None (-1) (repeat 0 NSTREAMS) (repeat FEmpty nslots) (None, None).
 
 Definition set_cu_cache (s : state) (k : list Z) (o : list nat) : state :=
-  mk_state k o (cus s) (dies s) (abbrevs s) (lines s) (e_secmap s) (e_symmap s) (e_numtags s) (cur s) (frames s).
+  mk_state k o (cus s) (dies s) (abbrevs s) (lines s) (e_secmap s) (e_symmap s) (e_numtags s) (cur s) (frames s) (cfis s).
 Definition set_cus (s : state) (v : list cu_obj) : state :=
-  mk_state (cu_keys s) (cu_objs s) v (dies s) (abbrevs s) (lines s) (e_secmap s) (e_symmap s) (e_numtags s) (cur s) (frames s).
+  mk_state (cu_keys s) (cu_objs s) v (dies s) (abbrevs s) (lines s) (e_secmap s) (e_symmap s) (e_numtags s) (cur s) (frames s) (cfis s).
 Definition set_dies (s : state) (v : list die_obj) : state :=
-  mk_state (cu_keys s) (cu_objs s) (cus s) v (abbrevs s) (lines s) (e_secmap s) (e_symmap s) (e_numtags s) (cur s) (frames s).
+  mk_state (cu_keys s) (cu_objs s) (cus s) v (abbrevs s) (lines s) (e_secmap s) (e_symmap s) (e_numtags s) (cur s) (frames s) (cfis s).
 Definition set_abbrevs (s : state) (v : dict Z Z) : state :=
-  mk_state (cu_keys s) (cu_objs s) (cus s) (dies s) v (lines s) (e_secmap s) (e_symmap s) (e_numtags s) (cur s) (frames s).
+  mk_state (cu_keys s) (cu_objs s) (cus s) (dies s) v (lines s) (e_secmap s) (e_symmap s) (e_numtags s) (cur s) (frames s) (cfis s).
 Definition set_lines (s : state) (v : dict Z lp_obj) : state :=
-  mk_state (cu_keys s) (cu_objs s) (cus s) (dies s) (abbrevs s) v (e_secmap s) (e_symmap s) (e_numtags s) (cur s) (frames s).
+  mk_state (cu_keys s) (cu_objs s) (cus s) (dies s) (abbrevs s) v (e_secmap s) (e_symmap s) (e_numtags s) (cur s) (frames s) (cfis s).
 Definition set_secmap (s : state) (v : option (dict Z Z)) : state :=
-  mk_state (cu_keys s) (cu_objs s) (cus s) (dies s) (abbrevs s) (lines s) v (e_symmap s) (e_numtags s) (cur s) (frames s).
+  mk_state (cu_keys s) (cu_objs s) (cus s) (dies s) (abbrevs s) (lines s) v (e_symmap s) (e_numtags s) (cur s) (frames s) (cfis s).
 Definition set_symmap (s : state) (v : option (dict Z (list Z))) : state :=
-  mk_state (cu_keys s) (cu_objs s) (cus s) (dies s) (abbrevs s) (lines s) (e_secmap s) v (e_numtags s) (cur s) (frames s).
+  mk_state (cu_keys s) (cu_objs s) (cus s) (dies s) (abbrevs s) (lines s) (e_secmap s) v (e_numtags s) (cur s) (frames s) (cfis s).
 Definition set_numtags (s : state) (v : Z) : state :=
-  mk_state (cu_keys s) (cu_objs s) (cus s) (dies s) (abbrevs s) (lines s) (e_secmap s) (e_symmap s) v (cur s) (frames s).
+  mk_state (cu_keys s) (cu_objs s) (cus s) (dies s) (abbrevs s) (lines s) (e_secmap s) (e_symmap s) v (cur s) (frames s) (cfis s).
 Definition set_cur (s : state) (v : list Z) : state :=
-  mk_state (cu_keys s) (cu_objs s) (cus s) (dies s) (abbrevs s) (lines s) (e_secmap s) (e_symmap s) (e_numtags s) v (frames s).
+  mk_state (cu_keys s) (cu_objs s) (cus s) (dies s) (abbrevs s) (lines s) (e_secmap s) (e_symmap s) (e_numtags s) v (frames s) (cfis s).
 Definition set_frames (s : state) (v : list frame) : state :=
-  mk_state (cu_keys s) (cu_objs s) (cus s) (dies s) (abbrevs s) (lines s) (e_secmap s) (e_symmap s) (e_numtags s) (cur s) v.
+  mk_state (cu_keys s) (cu_objs s) (cus s) (dies s) (abbrevs s) (lines s) (e_secmap s) (e_symmap s) (e_numtags s) (cur s) v (cfis s).
+
+Definition set_cfis (s : state) (v : option (list (option Z)) * option (list (option Z))) : state :=
+  mk_state (cu_keys s) (cu_objs s) (cus s) (dies s) (abbrevs s) (lines s) (e_secmap s) (e_symmap s) (e_numtags s) (cur s) (frames s) v.
 
 Fixpoint upd_nth {A} (n : nat) (f : A -> A) (l : list A) : list A :=
   match l, n with
@@ -195,7 +203,8 @@ Inductive op :=
 (* line programs, call frame information *)
 | LineProg (u : Z)                      (* dwarfinfo.line_program_for_CU(get_CU_at(u)): header + len(file_entry) *)
 | LineEntries (u : Z)                   (* ... .get_entries() *)
-| CFI (eh : bool)                       (* dwarfinfo.CFI_entries() / EH_CFI_entries() *)
+| CFI (eh : bool)                       (* entries = dwarfinfo.CFI_entries() / EH_CFI_entries(), kept by the client *)
+| CFIDecoded (eh : bool) (i : Z)        (* entries[i].get_decoded() on the list the client holds (fetched first if none) *)
 (* generators: created into a slot, advanced with Next *)
 | NewIterCUs (slot : nat)               (* dwarfinfo.iter_CUs() *)
 | NewIterDIEs (slot : nat) (u : Z)      (* get_CU_at(u).iter_DIEs() *)
